@@ -56,6 +56,16 @@ func (r *Rng) Chance(num, den int) bool { return r.Intn(den) < num }
 // Fork derives an independent generator (so that one case's choices do not shift the next case's).
 func (r *Rng) Fork() *Rng { return NewRng(r.Next()) }
 
+// Perm returns a random permutation of 0..n-1.
+func (r *Rng) Perm(n int) []int {
+	p := make([]int, n)
+	for i := range p {
+		p[i] = i
+	}
+	r.Shuffle(n, func(i, j int) { p[i], p[j] = p[j], p[i] })
+	return p
+}
+
 func (r *Rng) Shuffle(n int, swap func(i, j int)) {
 	for i := n - 1; i > 0; i-- {
 		j := r.Intn(i + 1)
